@@ -184,6 +184,8 @@ L.append('''import KaVerif.Lemmas.BodiesLemmas
   (This file is written with the help of tools/mkbodiesprops.py; it is not regenerated by check runs.)
 -/
 set_option linter.unusedVariables false
+-- membership / distinct-keys facts over the (long) descriptor tables are discharged by simp, which needs a deeper recursion for them
+set_option maxRecDepth 8000
 namespace KaVerif
 open KaVerif.Eval KaVerif.PyRt KaVerif.Bodies KaVerif.Gen.Bodies
 
